@@ -178,6 +178,35 @@ fn eval_shape(_ctx: &Ctx, case: &ShapeCase) -> Verdict {
         }
     }
 
+    // --- the other constructors build the same array: bijection and views do not depend on how it was made
+    {
+        let data: Vec<f64> = (1..=n).map(|v| v as f64).collect();
+        let from_iter = g("Array::from_iter", || Array::from_iter(data.iter().copied(), shape.to_vec()).map_err(|e| e.to_string()))?;
+        match from_iter {
+            Ok(a2) => ensure!(a2.shape().as_ref() == shape.as_slice() && a2.as_slice() == array.as_slice(), "shape {shape:?}: Array::from_iter built shape {:?} data {:?}", a2.shape(), a2.as_slice()),
+            Err(e) => fail!("shape {shape:?}: Array::from_iter rejects {n} items: {e}"),
+        }
+        for wrong in [n + 1, n.saturating_sub(1), n + shape[d - 1]] {
+            if wrong != n {
+                let r = g("Array::from_iter with a wrong count", || Array::from_iter((0..wrong).map(|v| v as f64), shape.to_vec()).is_ok())?;
+                ensure!(!r, "shape {shape:?}: Array::from_iter accepted {wrong} items for {n} elements");
+                let r = g("Array::new with a wrong count", || Array::new((0..wrong).map(|v| v as f64).collect::<Vec<f64>>(), shape.to_vec()).is_ok())?;
+                ensure!(!r, "shape {shape:?}: Array::new accepted {wrong} items for {n} elements");
+            }
+        }
+        let filled = g("Array::from_element", || Array::from_element(2.5f64, shape.to_vec()))?;
+        ensure!(filled.shape().as_ref() == shape.as_slice() && filled.as_slice().len() == n && filled.as_slice().iter().all(|v| *v == 2.5), "shape {shape:?}: from_element built shape {:?} with {} elements", filled.shape(), filled.as_slice().len());
+        let zeros = g("Array::from_zeros", || Array::<f64>::from_zeros(shape.to_vec()))?;
+        ensure!(zeros.shape().as_ref() == shape.as_slice() && zeros.as_slice().len() == n && zeros.as_slice().iter().all(|v| *v == 0.0), "shape {shape:?}: from_zeros built shape {:?} with {} elements", zeros.shape(), zeros.as_slice().len());
+        // writing through as_mut_slice at flat position k is seen by the index that maps to k
+        let mut copy = zeros.clone();
+        for (k, idx) in odo.iter().enumerate() {
+            copy.as_mut_slice()[k] = -((k + 1) as f64);
+            let got = g("Array::get after as_mut_slice", || copy.get(idx).copied())?;
+            ensure!(got == Some(-((k + 1) as f64)), "shape {shape:?}: wrote flat position {k} through as_mut_slice, get({idx:?}) = {got:?}");
+        }
+    }
+
     // --- every view: contents, order, once, len, fused, to_array; sum
     for a in 0..d {
         let mut sum_of_views = vec![0.0f64; n / shape[a]];
@@ -203,6 +232,9 @@ fn eval_shape(_ctx: &Ctx, case: &ShapeCase) -> Verdict {
                 let got = g(&format!("{what}: next() after exhaustion"), || it.next().copied())?;
                 ensure!(got.is_none(), "{what}: yields {got:?} on call {extra} after the first None");
             }
+            // the panicking twin of get_axis gives the same view for an in-range request
+            let twin = g(&format!("index_axis(Axis({a}), {pos}) on shape {shape:?}"), || array.index_axis(Axis(a), pos).iter().copied().collect::<Vec<f64>>())?;
+            ensure!(twin == want, "shape {shape:?}: index_axis(Axis({a}), {pos}) iterates {twin:?}, get_axis gives {want:?}");
             let arr = g(&format!("{what}: to_array"), || view.to_array())?;
             let want_shape: Vec<usize> = shape.iter().enumerate().filter(|(i, _)| *i != a).map(|(_, &l)| l).collect();
             ensure!(arr.shape().as_ref() == want_shape.as_slice(), "{what}: to_array shape {:?}, expected {want_shape:?}", arr.shape());
@@ -496,7 +528,7 @@ pub fn check(ctx: &Ctx) -> Check {
     let parts: Vec<Box<dyn Part>> = vec![
         Box::new(EnumPart {
             name: "shapes",
-            rule: "every shape with 1..5 axes and lengths 1..5 (thorough 1..6) plus every shape with 6..7 axes of lengths 1..2, distinct integer fill; all indices, all (axis, position) views, all out-of-range requests; Array::sum along every axis against the naive sum and the sum of views, on the positive fill and on three signed fills (all negative, mixed with zeros, sign by position along the summed axis); non-trivial = >=2 axes with unequal lengths, or a one-axis array; distinct by shape",
+            rule: "every shape with 1..5 axes and lengths 1..5 (thorough 1..6) plus every shape with 6..7 axes of lengths 1..2, distinct integer fill; all indices, all (axis, position) views (through get_axis and, in range, its panicking twin index_axis), all out-of-range requests; the same array built by Array::from_iter / from_element / from_zeros and written through as_mut_slice (wrong item counts refused by new and from_iter); Array::sum along every axis against the naive sum and the sum of views, on the positive fill and on three signed fills (all negative, mixed with zeros, sign by position along the summed axis); non-trivial = >=2 axes with unequal lengths, or a one-axis array; distinct by shape",
             exhaustive: true,
             cases: Box::new(move |_| {
                 let mut v: Vec<ShapeCase> = all_shapes(5, 1, max_len).into_iter().map(|shape| ShapeCase { shape }).collect();
